@@ -125,6 +125,18 @@ def py_eval(text):
     return ast.literal_eval(text)
 
 
+def py_eval_rhs(text):
+  """What Python evaluates `text` to as the right-hand side of one assignment statement (so that
+  layout before the value, e.g. a backslash continuation right after the '=', is layout)."""
+  with warnings.catch_warnings():
+    warnings.simplefilter('ignore')
+    tree = ast.parse('_ = ' + text + '\n')
+    if len(tree.body) != 1 or not isinstance(tree.body[0], ast.Assign) or len(
+        tree.body[0].targets) != 1:
+      raise SyntaxError('not a single assignment')
+    return ast.literal_eval(tree.body[0].value)
+
+
 def place(text, placement):
   if placement == 'flat':
     return 'c02probe.p = ' + text + '\n'
@@ -281,9 +293,10 @@ def check_nearmiss(case):
   # a trailing backslash): Python is asked about the text as is, and with trailing white space
   # removed / a final newline added.
   expected = None
-  for variant in (text, text.rstrip(' \t\r\n\f'), text + '\n', text.strip(' \t\r\n\f')):
+  for variant in (text, text.rstrip(' \t\r\n\f'), text + '\n', text.strip(' \t\r\n\f'), None):
     try:
-      expected = ('ok', py_eval(variant))
+      expected = ('ok', py_eval(variant) if variant is not None
+                  else py_eval_rhs(text.strip(' \t\r\n\f')))
       break
     except (TypeError, RecursionError, MemoryError):
       break
